@@ -26,6 +26,7 @@ def scripts(env):
     out = [c["script"] for _, c in load_corpus("C04") if "script" in c]
     out += [G.c04_random(env.rng, cfg) for _ in range(env.scale(250, 6000))]
     out += [G.c04_alias(env.rng, cfg) for _ in range(env.scale(40, 600))]
+    out += G.c04_uncopyable(cfg) + G.c04_boundary(cfg)
     return out
 
 
